@@ -132,7 +132,7 @@ def getStuffInner (member : Option Member) (action : Option TS) (obj : TS) (fiel
     | .unnamed n => if ctx.isVariant then .ok (obj ++ fieldPath (fIdent n)) else .ok (obj ++ fieldPath ident)
     | .named _ => .ok (obj ++ fieldPath ident)
   | none, some action => .ok (quoteAction action (some (fieldPath or)) ctx)
-  | none, none => panicAt "expand.rs:ApplicableAttr::get_stuff:unreachable(12)"
+  | none, none => .ok (obj ++ fieldPath or)
 
 def ApplicableAttr.getStuff (a : ApplicableAttr) (obj : TS) (fieldPath : Member → TS) (ctx : ImplContext) (or : Member) : E TS :=
   match a with
